@@ -10,6 +10,7 @@ import (
 	"sort"
 	"strings"
 	"sync"
+	"time"
 
 	"github.com/emitter-io/emitter/internal/broker"
 	"github.com/emitter-io/emitter/internal/security"
@@ -35,6 +36,10 @@ type Case struct {
 	Full   int      `json:"full_packets"`  // number of request packets completely sent and acknowledged
 	Offset int      `json:"offset"`        // bytes of the next packet sent before the cut (0 = boundary)
 	Ending string   `json:"ending"`        // how the connection ends (mid-packet cuts always end by abrupt close)
+	// burst family: the connection holds Burst subscriptions a/s<i>/ below a watched channel and ends while the
+	// watcher's socket is stalled (Stall) — its consumer stopped reading — and is released afterwards
+	Burst int  `json:"burst,omitempty"`
+	Stall bool `json:"stall,omitempty"`
 }
 
 type worker struct {
@@ -108,8 +113,97 @@ func ackOf(r string) int {
 	return session.PUBACK
 }
 
+// runBurst: a connection with many subscriptions below a watched channel ends while the presence watcher is not
+// reading. Every one of its subscriptions must be removed and the watcher told about each, once it reads again.
+func (k *worker) runBurst(cs Case) (kind, what string) {
+	var tc *broker.Conn
+	t := session.NewClient("T", func(c net.Conn) { tc = k.env.Svc.VerifAttach(c) })
+	tid := tc.ID()
+	if !t.Connect(session.ConnectOpts{ClientID: "t", Username: "tuser"}) {
+		return "harness:no-connack", "CONNECT not acknowledged"
+	}
+	want := map[string]int{}
+	for i := 0; i < cs.Burst; i++ {
+		ch := fmt.Sprintf("a/s%d/", i)
+		if code, ok := t.Subscribe(k.rw + "/" + ch); !ok || code == 0x80 {
+			return "harness:no-ack", "subscribe not acknowledged"
+		}
+		want["unsubscribe|"+ch]++
+	}
+	pres := k.env.Svc.VerifPresence()
+	pres.VerifBarrier()
+	if n := len(k.w.Drain()); n != cs.Burst {
+		return "presence-session-stream", fmt.Sprintf("watcher saw %d notifications for %d subscriptions", n, cs.Burst)
+	}
+	if cs.Stall {
+		k.w.Conn.StallWrites(true)
+	}
+	switch cs.Ending {
+	case "disconnect":
+		t.Send(session.EncDisconnect())
+	default:
+		t.Conn.CloseClient(false)
+	}
+	if cs.Stall {
+		// release the watcher once the teardown is over or is itself waiting for room in the notification queue
+		deadline := time.Now().Add(120 * time.Second)
+		for {
+			pending, capacity := pres.VerifQueue()
+			if t.Conn.IsClosed() || pending >= capacity {
+				break
+			}
+			if time.Now().After(deadline) {
+				k.w.Conn.StallWrites(false)
+				return "connection-not-closed", "teardown neither finished nor filled the notification queue within 120s"
+			}
+			time.Sleep(200 * time.Microsecond)
+		}
+		k.w.Conn.StallWrites(false)
+	}
+	if !t.WaitClosed() {
+		return "connection-not-closed", "the broker did not close the socket after the connection ended"
+	}
+	pres.VerifBarrier()
+	if d := k.dump(tid); d != k.baseline {
+		return "trie-entry", fmt.Sprintf("subscription index after the end: %.300s ; expected %s", d, k.baseline)
+	}
+	if n := len(tc.VerifCounters()); n != 0 {
+		return "counter", fmt.Sprintf("the ended connection still holds %d subscription counters", n)
+	}
+	got := map[string]int{}
+	for _, p := range k.w.Drain() {
+		var n struct {
+			Event   string `json:"event"`
+			Channel string `json:"channel"`
+		}
+		json.Unmarshal(p.Payload, &n)
+		got[n.Event+"|"+n.Channel]++
+	}
+	missing, extra := 0, 0
+	for key, n := range want {
+		if got[key] < n {
+			missing++
+		}
+	}
+	for key, n := range got {
+		if n > want[key] {
+			extra++
+		}
+	}
+	if missing > 0 {
+		return "presence-missing", fmt.Sprintf("the connection held %d subscriptions when it left; the watcher was not told about %d of them", cs.Burst, missing)
+	}
+	if extra > 0 {
+		return "presence-extra", fmt.Sprintf("the watcher received %d notifications it should not have", extra)
+	}
+	return "", ""
+}
+
 // runCase executes one case and returns ("", "") or a violation.
 func (k *worker) runCase(cs Case) (kind, what string) {
+	if cs.Burst > 0 {
+		return k.runBurst(cs)
+	}
 	var tc *broker.Conn
 	t := session.NewClient("T", func(c net.Conn) { tc = k.env.Svc.VerifAttach(c) })
 	tid := tc.ID()
@@ -291,6 +385,13 @@ func xorEq(a, b string) bool {
 }
 
 func signature(cs Case, kind string) string {
+	if cs.Burst > 0 {
+		size := "within-queue"
+		if cs.Burst > 100 {
+			size = "beyond-queue"
+		}
+		return fmt.Sprintf("%s:%s:burst:%s:stalled-watcher=%v", kind, cs.Ending, size, cs.Stall)
+	}
 	cut := "boundary"
 	end := cs.Ending
 	if cs.Offset > 0 {
@@ -373,6 +474,18 @@ func run(c *core.Ctx) {
 			}
 		}
 	}
+	// burst family: many subscriptions below a watched channel, watcher reading or stalled while the connection ends
+	bursts := []int{1, 99, 100, 101, 102, 150}
+	if !c.Quick() {
+		bursts = append(bursts, 2, 50, 103, 199, 200, 201, 202, 203, 300, 1000)
+	}
+	for _, b := range bursts {
+		for _, e := range []string{"abort", "disconnect"} {
+			for _, st := range []bool{false, true} {
+				cases = append(cases, Case{Will: "nowill", Ending: e, Burst: b, Stall: st})
+			}
+		}
+	}
 	probe.env.Close()
 	n := core.NumWorkers()
 	jobs := make(chan Case, 1024)
@@ -420,6 +533,7 @@ func run(c *core.Ctx) {
 	c.Sample(Case{Will: "will-ok", Reqs: []string{"sub:a/b/", "sub:b/a/"}, Full: 2, Ending: "abort"})
 	c.Sample(Case{Will: "will-unauthorized", Reqs: []string{"link:a/b/", "unsub:a/b/"}, Full: 1, Offset: 7, Ending: "abort"})
 	c.Assume("the transport is an in-memory net.Conn attached through the real accept path (no TCP, no TLS)")
+	c.Assume("burst family: the watcher's stall is a socket whose Write blocks; it is released when the ending connection's teardown has finished or waits for room in the presence queue (read through a verif hook)")
 	c.Assume("'internal failure while serving' is represented by decoder errors/panics only")
 }
 
